@@ -3,7 +3,7 @@
     hypotheses; Props/C14shex.v instantiates them. *)
 From Coq Require Import List Ascii String ZArith NArith Bool Lia Permutation Sorted.
 From Shexer Require Import Lib.PyStr Lib.Dict Gen.Consts Model.Profiler Model.Tokens Model.Freq Model.Shexing.
-From Shexer Require Import Proofs.ShexBasics.
+From Shexer Require Import Proofs.ShexBasics Proofs.SelectRel.
 Import ListNotations.
 
 Definition is_direct (s : stmt) : bool := negb (s_inv s).
@@ -317,3 +317,88 @@ Section Inverse.
     - exists e'. reflexivity.
   Qed.
 End Inverse.
+
+(** ** I2 — the inverse statements are what the direct strategy computes from
+    the inverse features, with the direction flag set *)
+Definition set_inv (s : stmt) : stmt :=
+  {| s_inv := true; s_prop := s_prop s; s_types := s_types s; s_choice := s_choice s;
+     s_card := s_card s; s_nocc := s_nocc s; s_prob := s_prob s; s_comments := s_comments s |}.
+
+(** the class entry whose direct features are the original inverse features *)
+Definition swap_entry (ce : str * centry) : str * centry :=
+  (fst ce, {| c_direct := c_inverse (snd ce); c_inverse := [] |}).
+
+Definition flipped : stmt -> stmt -> Prop :=
+  stmt_rel (fun x _ => x = true) (fun k1 k2 : comment => k1 = k2).
+
+Lemma Forall2_eq {A} (l1 l2 : list A) : Forall2 eq l1 l2 -> l1 = l2.
+Proof. intros F. induction F; [reflexivity | subst; reflexivity]. Qed.
+
+Lemma flipped_set_inv a b : flipped a b -> a = set_inv b.
+Proof.
+  intros [Hi Hp Ht Hc Hk Hn Hpr Hcm]. apply Forall2_eq in Hcm.
+  destruct a, b; unfold set_inv; simpl in *. subst. reflexivity.
+Qed.
+
+Lemma flipped_list l1 l2 : Forall2 flipped l1 l2 -> l1 = map set_inv l2.
+Proof.
+  intros F. induction F as [|a b l1 l2 Hab F IH]; simpl; [reflexivity|].
+  rewrite (flipped_set_inv a b Hab), IH. reflexivity.
+Qed.
+
+Lemma flipped_comment cfg a b :
+  flipped a b -> res_rel (fun k1 k2 : comment => k1 = k2) (comment_of cfg a) (comment_of cfg b).
+Proof.
+  intros [Hi Hp Ht Hc Hk Hn Hpr Hcm]. unfold comment_of, s_type. rewrite Hc, Hpr, Hn, Hk, Ht.
+  destruct (s_choice b); simpl; [reflexivity|].
+  destruct (tune_token (x_ns cfg) (hd [] (s_types b))); simpl; reflexivity.
+Qed.
+
+Lemma cfg_agree_refl cfg : cfg_agree cfg cfg.
+Proof. unfold cfg_agree. repeat split. Qed.
+
+Lemma Forall2_flat_map {A B C} (R : B -> C -> Prop) (f : A -> list B) (g : A -> list C) l :
+  (forall x, In x l -> Forall2 R (f x) (g x)) -> Forall2 R (flat_map f l) (flat_map g l).
+Proof.
+  induction l as [|x l IH]; simpl; intros H; [constructor|].
+  apply Forall2_app; [apply H; left; reflexivity | apply IH; intros y Hy; apply H; right; exact Hy].
+Qed.
+
+Lemma base_statements_flipped fa thr cnt pd :
+  Forall2 flipped (base_statements fa thr cnt true pd) (base_statements fa thr cnt false pd).
+Proof.
+  unfold base_statements.
+  apply Forall2_flat_map. intros pe _. apply Forall2_flat_map. intros ke _.
+  apply Forall2_flat_map. intros ce _.
+  destruct (fle fa thr (ratio fa (snd ce) cnt)); [|constructor].
+  constructor; [|constructor]. constructor; simpl; try reflexivity. constructor.
+Qed.
+
+Section Inverse2.
+  Variable fa : FreqAlg.
+  Hypothesis fle_total : forall a b : F fa, fle fa a b = false -> fle fa b a = true.
+  Hypothesis fle_trans : forall a b c : F fa, fle fa a b = true -> fle fa b c = true -> fle fa a c = true.
+
+  Theorem I2_inverse_part cfg thr counts ce sh_t :
+    shex_class fa (with_inverse true cfg) thr counts ce = inl sh_t ->
+    exists sh', shex_class fa (with_inverse false cfg) thr counts (swap_entry ce) = inl sh' /\
+                filter is_inverse (sh_stmts sh_t) = map set_inv (sh_stmts sh').
+  Proof.
+    intros H.
+    destruct (inverse_part fa fle_total fle_trans cfg thr counts ce sh_t H) as (vi & Evi & Et).
+    rewrite (shex_class_inverse_false fa fle_total fle_trans).
+    change (class_cnt counts (swap_entry ce)) with (class_cnt counts ce).
+    change (c_direct (snd (swap_entry ce))) with (c_inverse (snd ce)).
+    set (cnt := class_cnt counts ce) in *.
+    pose proof (base_statements_flipped fa thr cnt (c_inverse (snd ce))) as Fb.
+    pose proof (sort_desc_rel fa _ _ cnt _ _ Fb) as Fs.
+    pose proof (select_valid_rel fa cfg cfg _ _ (cfg_agree_refl cfg) (flipped_comment cfg) cnt _ _ Fs) as Hs.
+    rewrite Evi in Hs.
+    destruct (select_valid fa cfg cnt (sort_desc fa cnt (base_statements fa thr cnt false _))) as [vi'|e];
+      simpl in Hs; [|contradiction].
+    pose proof (tune_rel fa cfg cfg _ _ (cfg_agree_refl cfg) (flipped_comment cfg) cnt _ _ Hs) as Ht.
+    rewrite Et in Ht. simpl.
+    destruct (tune fa cfg cnt vi') as [st'|e]; simpl in Ht; [|contradiction].
+    simpl. eexists. split; [reflexivity|]. simpl. apply flipped_list. exact Ht.
+  Qed.
+End Inverse2.
